@@ -1,1 +1,434 @@
-fn main(){ let f = syn::parse_file("fn a(){ let x = 1; }").unwrap(); use syn::spanned::Spanned; println!("{:?}", f.items[0].span().start().line); }
+//! ctskel — C18 control-flow skeleton extractor.
+//!
+//!   ctskel [--repo DIR] [--ops FILE] [--out-lean FILE] [--out-json FILE]
+//!
+//! Parses the Rust sources of the repo (default $VERIF_REPO or /repo), and for every function of `ops.json` (and every
+//! repo function they call) emits a control-flow skeleton `def skel_<op> : Ct.Stmt` into Generated/CtSkel.lean plus a
+//! JSON description (site / loop / condition tables, trees) for tools/ct_measure.py.
+//! Exit code: 0 ok; 2 = a configured function was not found / could not be analysed (broken translator).
+mod ctx;
+mod node;
+mod walk;
+
+use ctx::*;
+use node::Node;
+use serde_json::{json, Value};
+use std::collections::{BTreeMap, HashMap, HashSet};
+use std::path::{Path, PathBuf};
+use walk::IterInfo;
+
+#[derive(Clone)]
+pub struct FnCfg {
+    pub op: String,
+    pub listed: bool,
+    pub negative_control: bool,
+    pub file: String,
+    pub impl_ty: Option<String>,
+    pub fn_name: String,
+    pub public: Vec<String>,
+    pub callee_as: Vec<String>,
+    pub returns_iter: bool,
+    pub auto: bool,
+}
+
+pub struct RepoFn {
+    pub file: String,
+    pub impl_ty: Option<String>,
+    pub name: String,
+    pub has_self: bool,
+    pub params: Vec<syn::Pat>,
+    pub const_generics: Vec<String>,
+    pub block: syn::Block,
+    pub line: usize,
+}
+
+pub struct FnSkel {
+    pub nodes: Vec<Node>,
+    pub params: Vec<String>,
+    pub public: Vec<String>,
+    pub listed: bool,
+    pub straight: bool,
+    pub tail_iter: Option<IterInfo>,
+    pub cfg: FnCfg,
+    pub passes: usize,
+}
+
+pub struct Tr {
+    pub cfg_fns: Vec<FnCfg>,
+    pub repo: Vec<RepoFn>,
+    pub repo_types: HashSet<String>,
+    pub repo_fn_names: HashSet<String>,
+    pub done: BTreeMap<String, FnSkel>,
+    pub order: Vec<String>,
+    pub in_progress: Vec<String>,
+    pub sites: Vec<Value>,
+    pub loops: Vec<Value>,
+    pub conds: Vec<Value>,
+    pub secrets: Vec<Value>,
+    pub notes: Vec<String>,
+    pub errors: Vec<String>,
+    pub vt_suffixes: Vec<String>,
+    pub vt_names: HashSet<String>,
+    pub bound_args: HashMap<String, Vec<usize>>,
+    pub abort_preds: Vec<String>,
+    pub ctor_no_call: Vec<String>,
+}
+
+fn type_name(t: &syn::Type) -> Option<String> {
+    match t {
+        syn::Type::Path(p) => p.path.segments.last().map(|s| s.ident.to_string()),
+        syn::Type::Reference(r) => type_name(&r.elem),
+        _ => None,
+    }
+}
+
+fn is_cfg_test(attrs: &[syn::Attribute]) -> bool {
+    attrs.iter().any(|a| a.path().is_ident("cfg") && squash(&a.meta).contains("test"))
+}
+
+fn const_generics(g: &syn::Generics) -> Vec<String> {
+    g.params.iter().filter_map(|p| if let syn::GenericParam::Const(c) = p { Some(c.ident.to_string()) } else { None }).collect()
+}
+
+fn add_fn(out: &mut Vec<RepoFn>, file: &str, impl_ty: Option<String>, sig: &syn::Signature, block: &syn::Block, extra_consts: &[String]) {
+    let mut params = vec![];
+    let mut has_self = false;
+    for a in &sig.inputs {
+        match a {
+            syn::FnArg::Receiver(_) => has_self = true,
+            syn::FnArg::Typed(t) => params.push((*t.pat).clone()),
+        }
+    }
+    let mut cg = const_generics(&sig.generics);
+    cg.extend(extra_consts.iter().cloned());
+    out.push(RepoFn { file: file.to_string(), impl_ty, name: sig.ident.to_string(), has_self, params, const_generics: cg, block: block.clone(),
+                      line: sig.ident.span().start().line });
+}
+
+fn index_items(items: &[syn::Item], file: &str, out: &mut Vec<RepoFn>, types: &mut HashSet<String>) {
+    for it in items {
+        match it {
+            syn::Item::Fn(f) if !is_cfg_test(&f.attrs) => add_fn(out, file, None, &f.sig, &f.block, &[]),
+            syn::Item::Impl(i) if !is_cfg_test(&i.attrs) => {
+                let ty = type_name(&i.self_ty);
+                let cg = const_generics(&i.generics);
+                for ii in &i.items {
+                    if let syn::ImplItem::Fn(f) = ii {
+                        if !is_cfg_test(&f.attrs) {
+                            add_fn(out, file, ty.clone(), &f.sig, &f.block, &cg);
+                        }
+                    }
+                }
+            }
+            syn::Item::Trait(t) => {
+                types.insert(t.ident.to_string());
+                for ti in &t.items {
+                    if let syn::TraitItem::Fn(f) = ti {
+                        if let Some(b) = &f.default {
+                            add_fn(out, file, Some(t.ident.to_string()), &f.sig, b, &[]);
+                        }
+                    }
+                }
+            }
+            syn::Item::Struct(s) => {
+                types.insert(s.ident.to_string());
+            }
+            syn::Item::Enum(s) => {
+                types.insert(s.ident.to_string());
+            }
+            syn::Item::Mod(m) if !is_cfg_test(&m.attrs) => {
+                if let Some((_, items)) = &m.content {
+                    index_items(items, file, out, types);
+                }
+            }
+            _ => {}
+        }
+    }
+}
+
+fn rs_files(dir: &Path, out: &mut Vec<PathBuf>) {
+    if let Ok(rd) = std::fs::read_dir(dir) {
+        let mut es: Vec<_> = rd.flatten().map(|e| e.path()).collect();
+        es.sort();
+        for p in es {
+            if p.is_dir() {
+                rs_files(&p, out);
+            } else if p.extension().map_or(false, |e| e == "rs") {
+                out.push(p);
+            }
+        }
+    }
+}
+
+impl Tr {
+    pub fn auto_fn(&mut self, ty: Option<&str>, name: &str) -> String {
+        let op = match ty {
+            Some(t) => format!("auto_{t}_{name}"),
+            None => format!("auto_{name}"),
+        };
+        if self.cfg_fns.iter().any(|f| f.op == op) {
+            return op;
+        }
+        let file = self.repo.iter().find(|r| r.impl_ty.as_deref() == ty && r.name == name).map(|r| r.file.clone()).unwrap_or_default();
+        self.cfg_fns.push(FnCfg { op: op.clone(), listed: false, negative_control: false, file, impl_ty: ty.map(|s| s.to_string()), fn_name: name.to_string(),
+                                  public: vec![], callee_as: vec![], returns_iter: false, auto: true });
+        op
+    }
+
+    /// analyse one configured function (memoised); Err = cannot be analysed
+    pub fn analyse(&mut self, op: &str) -> Result<(), String> {
+        if self.done.contains_key(op) {
+            return Ok(());
+        }
+        if self.in_progress.iter().any(|o| o == op) {
+            return Err(format!("recursive call cycle through `{op}`: {:?}", self.in_progress));
+        }
+        let cfg = self.cfg_fns.iter().find(|f| f.op == op).cloned().ok_or_else(|| format!("op `{op}` is not configured"))?;
+        let cands: Vec<usize> = self.repo.iter().enumerate()
+            .filter(|(_, r)| r.file == cfg.file && r.impl_ty == cfg.impl_ty && r.name == cfg.fn_name).map(|(i, _)| i).collect();
+        if cands.len() != 1 {
+            return Err(format!("function `{}{}` not found (or ambiguous: {} matches) in {}",
+                               cfg.impl_ty.as_ref().map(|t| format!("{t}::")).unwrap_or_default(), cfg.fn_name, cands.len(), cfg.file));
+        }
+        self.in_progress.push(op.to_string());
+        let rf = &self.repo[cands[0]];
+        let block = rf.block.clone();
+        let params = rf.params.clone();
+        let line = rf.line;
+        let mut cx = FnCtx {
+            op: op.to_string(), file: cfg.file.clone(), impl_ty: cfg.impl_ty.clone(),
+            public_paths: cfg.public.iter().cloned().collect(), const_generics: rf.const_generics.iter().cloned().collect(),
+            scopes: vec![], secret: HashSet::new(), closures: vec![], loops: vec![], closure_pub_params: HashMap::new(), depth_loop: 0, depth_sec: 0, depth_branch: 0,
+            emit: false, changed: false, direct_stmt: None,
+        };
+        let mut param_names = vec![];
+        for p in &params {
+            let mut v = vec![];
+            pat_idents(p, &mut v);
+            param_names.push(v.first().map(|x| x.0.clone()).unwrap_or_default());
+        }
+        let header = format!("fn {}{}", cfg.impl_ty.as_ref().map(|t| format!("{t}::")).unwrap_or_default(), cfg.fn_name);
+        let mut passes = 0;
+        let mut nodes;
+        let mut tail_iter = None;
+        loop {
+            passes += 1;
+            cx.changed = false;
+            cx.scopes.clear();
+            cx.closures.clear();
+            cx.push_scope();
+            for p in &params {
+                let mut v = vec![];
+                pat_idents(p, &mut v);
+                for (n, id, m) in v {
+                    let public = cfg.public.iter().any(|q| *q == n);
+                    // `x: &mut T` parameters are mutable places
+                    cx.bind(&n, id, m || true, public);
+                }
+            }
+            nodes = vec![];
+            let pos = block.stmts.first().map(|s| pos_of(s)).unwrap_or(pos_of(&block));
+            nodes.push(Node::Site(self.new_site(&cx, "fn", pos, end_of(&block), &header)));
+            cx.push_scope();
+            let nst = block.stmts.len();
+            for (k, s) in block.stmts.iter().enumerate() {
+                if cfg.returns_iter && k + 1 == nst {
+                    if let syn::Stmt::Expr(e, None) = s {
+                        let mut pend = vec![];
+                        let mut tmp = vec![];
+                        if let Some(info) = self.analyse_iter(&mut cx, e, false, &mut tmp, &mut pend) {
+                            nodes.extend(tmp);
+                            self.flush_pending(&mut cx, pend, &info, &mut nodes);
+                            tail_iter = Some(info);
+                            continue;
+                        }
+                    }
+                }
+                nodes.extend(self.walk_stmt(&mut cx, s));
+            }
+            cx.pop_scope();
+            cx.pop_scope();
+            if cx.emit {
+                break;
+            }
+            if !cx.changed || passes > 50 {
+                cx.emit = true; // one more pass, now allocating ids
+            }
+        }
+        self.in_progress.pop();
+        let _ = line;
+        if cfg.returns_iter && tail_iter.is_none() {
+            return Err(format!("`{op}` is configured returns_iter but its tail expression is not a recognised iterator chain"));
+        }
+        let done = &self.done;
+        let call_ok = |o: &str| done.get(o).map_or(false, |s| s.straight);
+        let straight = node::straight(&nodes, &call_ok);
+        self.done.insert(op.to_string(), FnSkel { nodes, params: param_names, public: cfg.public.clone(), listed: cfg.listed, straight, tail_iter, cfg, passes });
+        self.order.push(op.to_string());
+        Ok(())
+    }
+}
+
+fn main() {
+    let args: Vec<String> = std::env::args().collect();
+    let here = std::env::current_exe().ok();
+    let _ = here;
+    let mut repo = std::env::var("VERIF_REPO").unwrap_or_else(|_| "/repo".into());
+    let root = PathBuf::from(env!("CARGO_MANIFEST_DIR"));
+    let mut ops = root.join("ops.json");
+    let mut out_lean = root.join("../../lean/SlVerif/Generated/CtSkel.lean");
+    let mut out_json = root.join("../../.build/ctskel.json");
+    let mut i = 1;
+    while i < args.len() {
+        match args[i].as_str() {
+            "--repo" => { repo = args[i + 1].clone(); i += 2 }
+            "--ops" => { ops = PathBuf::from(&args[i + 1]); i += 2 }
+            "--out-lean" => { out_lean = PathBuf::from(&args[i + 1]); i += 2 }
+            "--out-json" => { out_json = PathBuf::from(&args[i + 1]); i += 2 }
+            a => { eprintln!("ctskel: unknown argument {a}"); std::process::exit(2) }
+        }
+    }
+    let cfg: Value = match std::fs::read_to_string(&ops).map_err(|e| e.to_string()).and_then(|s| serde_json::from_str(&s).map_err(|e| e.to_string())) {
+        Ok(v) => v,
+        Err(e) => { eprintln!("ctskel: cannot read {}: {e}", ops.display()); std::process::exit(2) }
+    };
+    let strs = |v: &Value| -> Vec<String> { v.as_array().map(|a| a.iter().filter_map(|x| x.as_str().map(|s| s.to_string())).collect()).unwrap_or_default() };
+    let mut cfg_fns = vec![];
+    for f in cfg["functions"].as_array().cloned().unwrap_or_default() {
+        cfg_fns.push(FnCfg {
+            op: f["op"].as_str().unwrap_or("").to_string(),
+            listed: f["listed"].as_bool().unwrap_or(false),
+            negative_control: f["negative_control"].as_bool().unwrap_or(false),
+            file: f["file"].as_str().unwrap_or("").to_string(),
+            impl_ty: f["impl"].as_str().map(|s| s.to_string()),
+            fn_name: f["fn"].as_str().unwrap_or("").to_string(),
+            public: strs(&f["public"]),
+            callee_as: strs(&f["callee_as"]),
+            returns_iter: f["returns_iter"].as_bool().unwrap_or(false),
+            auto: false,
+        });
+    }
+    // index the repo
+    let mut files = vec![];
+    let crates = Path::new(&repo).join("crates");
+    if let Ok(rd) = std::fs::read_dir(&crates) {
+        let mut cs: Vec<_> = rd.flatten().map(|e| e.path()).collect();
+        cs.sort();
+        for c in cs {
+            rs_files(&c.join("src"), &mut files);
+        }
+    }
+    if files.is_empty() {
+        eprintln!("ctskel: no sources under {}", crates.display());
+        std::process::exit(2);
+    }
+    let mut repo_fns = vec![];
+    let mut types = HashSet::new();
+    for p in &files {
+        let rel = p.strip_prefix(&repo).unwrap_or(p).to_string_lossy().to_string();
+        let src = std::fs::read_to_string(p).unwrap_or_default();
+        match syn::parse_file(&src) {
+            Ok(f) => index_items(&f.items, &rel, &mut repo_fns, &mut types),
+            Err(e) => {
+                if cfg_fns.iter().any(|c| c.file == rel) {
+                    eprintln!("ctskel: {rel} does not parse: {e}");
+                    std::process::exit(2);
+                }
+            }
+        }
+    }
+    let repo_fn_names = repo_fns.iter().map(|r| r.name.clone()).collect();
+    let mut bound_args = HashMap::new();
+    if let Some(o) = cfg["bound_args"].as_object() {
+        for (k, v) in o {
+            if let Some(a) = v.as_array() {
+                bound_args.insert(k.clone(), a.iter().filter_map(|x| x.as_u64().map(|n| n as usize)).collect());
+            }
+        }
+    }
+    let mut tr = Tr {
+        cfg_fns, repo: repo_fns, repo_types: types, repo_fn_names, done: BTreeMap::new(), order: vec![], in_progress: vec![],
+        sites: vec![], loops: vec![], conds: vec![], secrets: vec![], notes: vec![], errors: vec![],
+        vt_suffixes: strs(&cfg["vartime_methods"]["suffixes"]), vt_names: strs(&cfg["vartime_methods"]["names"]).into_iter().collect(),
+        bound_args, abort_preds: strs(&cfg["abort_predicates"]), ctor_no_call: strs(&cfg["constructors_no_call"]),
+    };
+    let todo: Vec<String> = tr.cfg_fns.iter().filter(|f| f.listed || f.negative_control).map(|f| f.op.clone()).collect();
+    let mut failed = false;
+    for op in &todo {
+        if let Err(e) = tr.analyse(op) {
+            eprintln!("ctskel: ERROR {e}");
+            failed = true;
+        }
+    }
+    for e in &tr.errors {
+        eprintln!("ctskel: ERROR {e}");
+        failed = true;
+    }
+    if failed {
+        std::process::exit(2);
+    }
+
+    // ---- Lean
+    let mut l = String::new();
+    l.push_str("/- GENERATED by tools/ctskel from the repo sources — do not edit (regenerated on every check) -/\n");
+    l.push_str("import SlVerif.Model.Ct\nnamespace SlVerif.Generated\nopen SlVerif.Ct\n\n");
+    for op in &tr.order {
+        let s = &tr.done[op];
+        l.push_str(&format!("/-- {}{} ({}){} -/\n", s.cfg.impl_ty.as_ref().map(|t| format!("{t}::")).unwrap_or_default(), s.cfg.fn_name, s.cfg.file,
+                            if s.cfg.public.is_empty() { String::new() } else { format!("; public: {}", s.cfg.public.join(", ")) }));
+        l.push_str(&format!("def skel_{op} : Stmt :=\n  {}\n\n", node::lean_block(&s.nodes, 2)));
+    }
+    l.push_str("/-- site id ↦ `file:line kind header` -/\ndef siteTable : List (Nat × String) := [\n");
+    let esc = |s: &str| s.replace('\\', "\\\\").replace('"', "\\\"");
+    for (k, s) in tr.sites.iter().enumerate() {
+        l.push_str(&format!("  ({}, \"{}:{} [{}] {}\"){}\n", s["id"], s["file"].as_str().unwrap_or(""), s["line"], s["kind"].as_str().unwrap_or(""),
+                            esc(s["header"].as_str().unwrap_or("")), if k + 1 < tr.sites.len() { "," } else { "" }));
+    }
+    l.push_str("]\n\n/-- loop id ↦ `file:line header ; rule` -/\ndef loopTable : List (Nat × String) := [\n");
+    for (k, s) in tr.loops.iter().enumerate() {
+        l.push_str(&format!("  ({}, \"{}:{} {} ; {}\"){}\n", s["id"], s["file"].as_str().unwrap_or(""), s["line"], esc(s["header"].as_str().unwrap_or("")),
+                            esc(s["rule"].as_str().unwrap_or("")), if k + 1 < tr.loops.len() { "," } else { "" }));
+    }
+    l.push_str("]\n\n/-- condition id ↦ `file:line kind text` -/\ndef condTable : List (Nat × String) := [\n");
+    for (k, s) in tr.conds.iter().enumerate() {
+        l.push_str(&format!("  ({}, \"{}:{} [{}] {}\"){}\n", s["id"], s["file"].as_str().unwrap_or(""), s["line"], s["kind"].as_str().unwrap_or(""),
+                            esc(s["text"].as_str().unwrap_or("")), if k + 1 < tr.conds.len() { "," } else { "" }));
+    }
+    l.push_str("]\n\n/-- secret id ↦ the secret expression compared against a loop index -/\ndef secretTable : List (Nat × String) := [\n");
+    for (k, s) in tr.secrets.iter().enumerate() {
+        l.push_str(&format!("  ({}, \"{}:{} {}\"){}\n", s["id"], s["file"].as_str().unwrap_or(""), s["line"], esc(s["text"].as_str().unwrap_or("")),
+                            if k + 1 < tr.secrets.len() { "," } else { "" }));
+    }
+    l.push_str("]\n\nend SlVerif.Generated\n");
+    write_if_changed(&out_lean, &l);
+
+    // ---- JSON
+    let mut ops_json = serde_json::Map::new();
+    for op in &tr.order {
+        let s = &tr.done[op];
+        let mut rej = vec![];
+        node::rejected(&s.nodes, &mut rej);
+        ops_json.insert(op.clone(), json!({
+            "listed": s.listed, "negative_control": s.cfg.negative_control, "auto": s.cfg.auto, "file": s.cfg.file, "impl": s.cfg.impl_ty, "fn": s.cfg.fn_name,
+            "public": s.cfg.public, "params": s.params, "straight": s.straight, "taint_passes": s.passes,
+            "rejected_local": rej, "tree": node::json_block(&s.nodes),
+        }));
+    }
+    let j = json!({"repo": repo, "order": tr.order, "ops": ops_json, "sites": tr.sites, "loops": tr.loops, "conds": tr.conds, "secrets": tr.secrets, "notes": tr.notes});
+    write_if_changed(&out_json, &(serde_json::to_string_pretty(&j).unwrap() + "\n"));
+    let n_rej: usize = tr.order.iter().map(|op| { let mut r = vec![]; node::rejected(&tr.done[op].nodes, &mut r); r.len() }).sum();
+    println!("ctskel: {} functions ({} listed), {} sites, {} loops, {} conditions, {} rejected nodes -> {}", tr.order.len(),
+             tr.done.values().filter(|s| s.listed).count(), tr.sites.len(), tr.loops.len(), tr.conds.len(), n_rej, out_lean.display());
+}
+
+fn write_if_changed(p: &Path, text: &str) {
+    if let Some(d) = p.parent() {
+        let _ = std::fs::create_dir_all(d);
+    }
+    if std::fs::read_to_string(p).map_or(true, |old| old != text) {
+        if let Err(e) = std::fs::write(p, text) {
+            eprintln!("ctskel: cannot write {}: {e}", p.display());
+            std::process::exit(2);
+        }
+    }
+}
